@@ -625,6 +625,37 @@ async fn run_case(addr: SocketAddr, certs: &Certs, t: &[&str]) -> anyhow::Result
             std::mem::forget(gs); std::mem::forget(ghost);
             Ok(format!("{a} probe={}", if got == total { "ok".to_string() } else { format!("FAILED:{got}_of_{total}_messages_{}s_after_a_subscriber_vanished", t0.elapsed().as_secs()) }))
         }
+        "stallslow" => {
+            // a stall that lasts: a subscriber that reads nothing and a publisher that floods it, for <secs> seconds - longer than
+            // any periodic housekeeping a server might do - and only then a client that has never talked to the server before
+            // connects and uses another topic
+            let secs: u64 = t[2].parse()?;
+            let (ns, tp) = fresh();
+            let conn = raw(addr, certs).await?;
+            let mut stalled = raw_stream(&conn).await?;
+            stalled.send(reg_frame("RS", &ns, &tp)).await?;
+            let a = answer(&mut stalled).await;
+            let flood = crate::e2e::client(addr, certs, BackoffStrategy::constant().with_max_attempts(0)).await?;
+            let mut publ = flood.publisher(&format!("/{ns}/{tp}")).with_encoder(StringCodec).open().await?;
+            let chunk = "x".repeat(64 * 1024);
+            let t0 = std::time::Instant::now();
+            let mut stuck = 0;
+            for _ in 0..96 {
+                if tokio::time::timeout(Duration::from_millis(300), publ.send(chunk.clone())).await.is_err() { stuck += 1; } else { stuck = 0; }
+                if stuck >= 4 { break; }
+            }
+            let mut during = "ok".to_string();
+            while t0.elapsed() < Duration::from_secs(secs) {
+                tokio::time::sleep(Duration::from_secs(5)).await;
+                let (nsx, tpx) = fresh();
+                let p = probe_pubsub(addr, certs, &nsx, &tpx).await;
+                if p != "ok" { during = p; break; }
+            }
+            let (ns2, tp2) = fresh();
+            let late = probe_pubsub(addr, certs, &ns2, &tp2).await;
+            drop(stalled);
+            Ok(format!("{a} during={during} probe={late}"))
+        }
         "lazy" => {
             // one `Client` (one connection) holds <n> subscribers of topic A that it does not read, and a subscriber of topic B that
             // it does read. A is flooded until its publisher is stuck. What is published on B still arrives.
@@ -795,6 +826,8 @@ pub fn run_named(cfg: &Cfg, name: &str) {
         cases.push("reg lazy 9".into());
         cases.push("reg ghost 1500".into());
         cases.push("reg stall 130".into());
+        // (thorough tier, and whenever a proof obligation of the property no longer checks)
+        if cfg.tier == Tier::Thorough || searching() { cases.push("reg stallslow 36".into()); }
         // the same against a server that has a single worker thread
         cases.push("reg stall1 130".into());
         cases.push("reg stall 420".into());
@@ -836,13 +869,13 @@ pub fn run_named(cfg: &Cfg, name: &str) {
                            Err(if t[1].starts_with("stall") || t[1] == "mute" { format!("C11/C17: with one topic stalled the server can no longer be talked to at all: {e}") } else { format!("{e}") })),
             Ok(Ok(line)) => {
                 let mut m = Ok(());
-                let probe_ok = line.split(' ').filter(|x| x.contains('=') && ["probe", "queued-peer", "blocked-publisher", "other-names", "queued-peer-later", "same-client"].contains(&x.split('=').next().unwrap())).all(|x| x.ends_with("=ok"));
+                let probe_ok = line.split(' ').filter(|x| x.contains('=') && ["probe", "queued-peer", "blocked-publisher", "other-names", "queued-peer-later", "same-client", "during"].contains(&x.split('=').next().unwrap())).all(|x| x.ends_with("=ok"));
                 // whom a dead probe speaks for: a topic left unusable (C11); for the stall scenario other topics (C17); a replier
                 // slot that a dead registration keeps occupied (C10)
-                let tag = if t[1] == "stall" || t[1] == "stall1" || t[1] == "mute" || t[1] == "lazy" { "C11/C17" } else if t[1] == "ghost" { "C08/C11" } else if t[1] == "abandon" && t[2] == "RR" { "C10/C11" } else { "C11" };
+                let tag = if t[1] == "stall" || t[1] == "stall1" || t[1] == "stallslow" || t[1] == "mute" || t[1] == "lazy" { "C11/C17" } else if t[1] == "ghost" { "C08/C11" } else if t[1] == "abandon" && t[2] == "RR" { "C10/C11" } else { "C11" };
                 if !probe_ok { dead = line.contains("hang"); m = Err(format!("{tag}: after `{}` well-behaved clients are no longer served: {line}", t[1..].join(" ").chars().take(80).collect::<String>())); }
                 if m.is_ok() {
-                    let answers: Vec<&str> = line.split(' ').filter(|x| !x.starts_with("probe=") && !x.starts_with("queued-peer=") && !x.starts_with("blocked-publisher=") && !x.starts_with("other-names=") && !x.starts_with("queued-peer-later=") && !x.starts_with("same-client=") && !x.starts_with("before=") && !x.starts_with("first=") && !x.starts_with("second=") && !x.starts_with("told=") && !x.starts_with("a=") && !x.starts_with("b=") && !x.starts_with("got=") && !x.starts_with("lib=")).collect();
+                    let answers: Vec<&str> = line.split(' ').filter(|x| !x.starts_with("probe=") && !x.starts_with("queued-peer=") && !x.starts_with("blocked-publisher=") && !x.starts_with("other-names=") && !x.starts_with("queued-peer-later=") && !x.starts_with("same-client=") && !x.starts_with("before=") && !x.starts_with("during=") && !x.starts_with("first=") && !x.starts_with("second=") && !x.starts_with("told=") && !x.starts_with("a=") && !x.starts_with("b=") && !x.starts_with("got=") && !x.starts_with("lib=")).collect();
                     for a in &answers {
                         if *a == "timeout" { m = Err(format!("C11: a stream was neither served nor refused nor closed: {line}")); }
                     }
